@@ -19,9 +19,10 @@ fn spec0() -> Spec {
     Spec { outline: 1, height: 2.5, storeys: 2, offset: (0.0, 0.0), space_az: 0.0, global_dev: 37.5, window: 2, shade: 1, poly_roof: false }
 }
 
-fn model_no_window() -> Model {
+fn model_canary() -> Model {
+    // a Canary-islands zone (different July sun table than the peninsular zones) with a shaded window
     let mut m = simple_box(zone("A3c"));
-    m.windows.clear();
+    m.shades.push(Shade { id: uid("sh"), name: "sh".into(), geometry: geom(90.0, 0.0, Some([2.0, -3.0, 0.0]), rect(6.0, 4.0)) });
     m
 }
 
@@ -36,7 +37,7 @@ fn model_failing() -> Model {
 }
 
 pub const N_OPS: usize = 9;
-const OP_NAMES: [&str; N_OPS] = ["convert(cubo)", "convert(e4h_medianeras)", "convert(generated)", "indicators(cubo.json, D3)", "indicators(ejemploviv_unif.json)", "indicators(box, B3)", "indicators(box without window, A3c)", "indicators(broken model, E1)", "collect_hulc_data(cubo, extra)"];
+const OP_NAMES: [&str; N_OPS] = ["convert(cubo)", "convert(e4h_medianeras)", "convert(generated)", "indicators(cubo.json, D3)", "indicators(ejemploviv_unif.json)", "indicators(box, B3)", "indicators(box with shaded window, A3c)", "indicators(broken model, E1)", "collect_hulc_data(cubo, extra)"];
 
 /// run one operation, return the hash of its observation (model JSON bytes / indicators as JSON value text)
 pub fn run_op(op: usize) -> u64 {
@@ -64,7 +65,7 @@ pub fn run_op(op: usize) -> u64 {
         3 => ind_hash(&load_model(&format!("{}/cubo.json", data))),
         4 => ind_hash(&load_model(&format!("{}/ejemploviv_unif.json", data))),
         5 => ind_hash(&simple_box(zone("B3"))),
-        6 => ind_hash(&model_no_window()),
+        6 => ind_hash(&model_canary()),
         7 => ind_hash(&model_failing()),
         _ => match hulc2model::collect_hulc_data(format!("{}/cubo", tests), true, true) {
             Ok(m) => hash64(&m.as_json().unwrap()),
